@@ -171,6 +171,9 @@ pub fn run(cx: &RunCtx) -> i32 {
         ctor(1, |mut k| G::un(Op::Label, k.remove(0)).with(|p| { p.n = 1; p.ok = true })),
         ctor(1, |mut k| G::un(Op::MapErr, k.remove(0))),
         ctor(1, |mut k| G::un(Op::Memo, k.remove(0))),
+        // nested_in shelters the pending error while the nested parse runs and has to re-file what the nested parse left
+        ctor(1, |mut k| G::new(Op::NestedIn, vec![k.remove(0), G::bin(Op::Then, G::leaf(Op::Any), G::leaf(Op::Any))])),
+        ctor(1, |mut k| G::new(Op::NestedIn, vec![k.remove(0), G::rep(G::leaf(Op::Any), 1, Some(2), Flav::Unit)])),
     ];
     let tails = vec![G::leaf(Op::Empty), G::just('b'), G::just('é'), G::leaf(Op::End)];
     let mut shaped = vec![];
